@@ -2,6 +2,7 @@ package rules
 
 import (
 	"go/ast"
+	"go/constant"
 	"go/token"
 	"go/types"
 	"strings"
@@ -171,16 +172,42 @@ func runC12_2(c *core.Ctx) {
 	})
 	c.Check(dec, f.Name, "class below when cap != 1<<idx", f.Decl.Pos(), "foreign/odd capacities go to the class they can fully serve",
 		"Put no longer lowers the class for capacities that are not an exact class capacity: a later Get re-slices the array to 1<<idx, beyond the memory that was pooled (out-of-bounds / aliasing of a neighbour's memory)")
-	// zero and oversize are dropped before the index is computed
-	const fGuard = 1
+	// zero and oversize are dropped before the index is computed: decided per class of the capacity
+	// ({0}, [1, MaxInt32], (MaxInt32, ∞)) – an edge excludes a class when no value of the class takes it
+	const (
+		fNonZero = 1 << iota
+		fBounded
+	)
+	zero := ival{lo: 0, hi: 0}
+	over := ival{lo: 1 << 31, hiInf: true}
 	p := &flow.Problem{Must: true}
 	p.Edge = func(e *flow.Edge, in uint64) uint64 {
-		if e.Cond != nil && e.Tag == nil && !e.Sense {
-			if x, y, op, ok := flow.Cmp(e.Cond); ok && flow.ObjOf(f.Info, x) == sizeObj {
-				if cv := flow.ConstOf(f.Info, y); cv != nil && (op == token.EQL || op == token.GTR || op == token.LEQ) {
-					in |= fGuard
-				}
-			}
+		if e.Cond == nil || e.Tag != nil {
+			return in
+		}
+		x, y, op, ok := flow.Cmp(e.Cond)
+		if !ok {
+			return in
+		}
+		if flow.ObjOf(f.Info, y) == sizeObj {
+			x, y, op = y, x, swapCmp(op)
+		}
+		if flow.ObjOf(f.Info, x) != sizeObj {
+			return in
+		}
+		cv := flow.ConstOf(f.Info, y)
+		if cv == nil {
+			return in
+		}
+		k, exact := constant.Int64Val(constant.ToInt(cv))
+		if !exact {
+			return in
+		}
+		if t, ok := zero.cmp(op, k); ok && t != e.Sense {
+			in |= fNonZero
+		}
+		if t, ok := over.cmp(op, k); ok && t != e.Sense {
+			in |= fBounded
 		}
 		return in
 	}
@@ -188,8 +215,8 @@ func runC12_2(c *core.Ctx) {
 	sol.Walk(func(b *flow.Block, i int, n ast.Node, before uint64) {
 		for _, call := range flow.Calls(n) {
 			if flow.IsCall(f.Info, call, idxFn) {
-				c.Check(before&fGuard != 0, f.Name, "zero/oversize capacity dropped", call.Pos(), "index is computed only for capacities in [1, MaxInt32]",
-					"Put computes a class for a zero or > MaxInt32 capacity: index(0-1) is 32 (out of range) and a nil array would be pooled")
+				c.Check(before&fNonZero != 0 && before&fBounded != 0, f.Name, "zero/oversize capacity dropped", call.Pos(), "index is computed only for capacities in [1, MaxInt32]",
+					"Put computes a class for a zero or > MaxInt32 capacity: index(0-1) is 32 (out of range) and a nil array would be pooled", sol.Witness(b, fNonZero|fBounded)...)
 			}
 		}
 	})
